@@ -295,7 +295,21 @@ theorem C13_encode_partial (op : OpKind) (a : Args) (k : FdKind) (h : WF op a k)
       have hnil : addrBytes a.aty a.addr ≠ [] := by
         intro e; rw [e] at hl; simp at hl
       cases k <;> cases hz : a.zc <;> enc_simp <;> simp [hne, hnil, hk] <;> omega
+  case pollable => cases k <;> enc_simp <;> rfl
   all_goals (cases k <;> enc_simp <;> (try first | assumption | omega | (split <;> omega) | (cases a.zc <;> simp)))
+
+/-- **`Ring::pollable`** (the one operation whose descriptor is another ring):
+for every ring descriptor the request is a multishot poll of exactly that
+descriptor for `EPOLLIN | EPOLLHUP | EPOLLERR`, edge triggered and exclusive,
+tagged as multishot — and the ABI reading is not vacuous: the same request
+with a single-shot tag, or with any other bit in `len`, is not that call. -/
+theorem C13_pollable_request (a : Args) (k : FdKind) :
+    abi .pollable (fill .pollable a k) =
+      some ⟨"poll", [("fd", .i a.fd), ("events", .n 2415919129), ("multi", .n 1)]⟩ ∧
+    abi .pollable { (fill .pollable a k) with sqe := { (fill .pollable a k).sqe with userData := .single } } = none ∧
+    abi .pollable { (fill .pollable a k) with sqe := { (fill .pollable a k).sqe with len := 3 } } = none := by
+  refine ⟨?_, ?_, ?_⟩ <;>
+    simp [abi, fill, OP_POLL_ADD, IORING_POLL_ADD_MULTI, POLLABLE_EVENTS]
 
 /-- `direct.splice_to(fd 700, 10)` with direct descriptor 5. -/
 def spliceWitness : Args := { fd := 5, target := 700, dirTo := true, len := 10 }
